@@ -10,7 +10,8 @@ Ltac sconsts := unfold SOCKS_PROTOCOL_VERSION, SOCKS_RESERVED, SOCKS_ADDRESS_TYP
   SOCKS_AUTHENTICATION_CODE_USERNAME_PASSWORD, SOCKS_AUTHENTICATION_CODE_EXTENDED_AUTH,
   SOCKS_AUTHENTICATION_CODE_NO_ACCEPTABLE, SOCKS_USERNAME_PASSWORD_AUTHENTICATION_VER,
   SOCKS_AUTHENTICATION_STATUS_SUCCESS, SOCKS_EXTENDED_AUTHENTICATION_TERM_TYPE_CODE,
-  SOCKS_EXTENDED_AUTHENTICATION_TERM_VAL_LENGTH, SOCKS_UDP_HEADER_FRAG, SOCKS_USERPASS_LENGTH_CHECKED in *.
+  SOCKS_EXTENDED_AUTHENTICATION_TERM_VAL_LENGTH, SOCKS_UDP_HEADER_FRAG, SOCKS_USERPASS_LENGTH_CHECKED,
+  SOCKS_USERPASS_EMPTY_REFUSED, SOCKS_EXT_EMPTY_REFUSED in *.
 
 (* evaluate a comparison between numerals *)
 Ltac lit a b :=
@@ -27,14 +28,16 @@ Lemma userpass_wf u p msg :
 Proof.
   intros Hu Hp. unfold auth_message. sconsts. cbn [N.eqb Pos.eqb andb].
   destruct ((255 <? lenN u) || (255 <? lenN p)) eqn:E; [discriminate|].
+  destruct ((lenN u =? 0) || (lenN p =? 0)) eqn:E0; [discriminate|].
   intros H. inversion H; subst. clear H.
   apply orb_false_iff in E. destruct E as [E1 E2].
+  apply orb_false_iff in E0. destruct E0 as [E3 E4].
   unfold u8. rewrite !N.mod_small by lia.
   cbn [Datatypes.app spec_userpass].
-  replace ((lenN u <=? 255) && (lenN u <? lenN (u ++ lenN p :: p))) with true
+  replace ((1 <=? lenN u) && (lenN u <=? 255) && (lenN u <? lenN (u ++ lenN p :: p))) with true
     by (rewrite lenN_app, lenN_cons; lia).
   rewrite takeN_exact, dropN_exact.
-  replace ((lenN p <=? 255) && (lenN p =? lenN p)) with true by lia. reflexivity.
+  replace ((1 <=? lenN p) && (lenN p <=? 255) && (lenN p =? lenN p)) with true by lia. reflexivity.
 Qed.
 
 Lemma userpass_too_long u p :
@@ -42,6 +45,29 @@ Lemma userpass_too_long u p :
 Proof.
   intros H. unfold auth_message. sconsts. cbn [N.eqb Pos.eqb andb].
   replace ((255 <? lenN u) || (255 <? lenN p)) with true by lia. reflexivity.
+Qed.
+
+(* RFC 1929: UNAME and PASSWD are 1 to 255 octets: with an empty half no message is written *)
+Lemma userpass_empty u p :
+  lenN u = 0 \/ lenN p = 0 -> auth_message (AUserPass u p) = None.
+Proof.
+  intros H. unfold auth_message. sconsts. cbn [N.eqb Pos.eqb andb].
+  destruct ((255 <? lenN u) || (255 <? lenN p)); [reflexivity|].
+  replace ((lenN u =? 0) || (lenN p =? 0)) with true by lia. reflexivity.
+Qed.
+
+(* what the grammar accepts has the lengths the RFC asks for *)
+Lemma spec_userpass_lengths m u p :
+  spec_userpass m = Some (u, p) -> 1 <= lenN u <= 255 /\ 1 <= lenN p <= 255.
+Proof.
+  unfold spec_userpass.
+  destruct m as [|v [|ulen rest]]; try discriminate.
+  - destruct v as [|[?|?|]]; discriminate.
+  - destruct v as [|[?|?|]]; try discriminate.
+    destruct ((1 <=? ulen) && (ulen <=? 255) && (ulen <? lenN rest)) eqn:E; [|discriminate].
+    destruct (dropN ulen rest) as [|plen q] eqn:D; [discriminate|].
+    destruct ((1 <=? plen) && (plen <=? 255) && (lenN q =? plen)) eqn:E2; [|discriminate].
+    intros H. injection H as <- <-. rewrite lenN_takeN. lia.
 Qed.
 
 Definition dest_ok (d : s_dest) : Prop :=
@@ -89,14 +115,33 @@ Lemma request_too_long cmd name port :
   255 < lenN name -> request_message cmd (DDomain name) port = None.
 Proof. intros H. unfold request_message. replace (255 <? lenN name) with true by lia. reflexivity. Qed.
 
-(* extended authentication values *)
-Definition vals_ok (vals : list (N * list N)) : Prop :=
-  Forall (fun tv => fst tv <> 0 /\ bytes_ok (snd tv) = true) vals.
+(* extended authentication values: what the types of socks5_client.rs guarantee (a CLIENT_ADDRESS is an IP address, SNI_AUTH has
+   no value); that the strings are not empty is NOT assumed: the writer refuses empty ones *)
+Definition val_ok (tv : N * list N) : Prop :=
+  bytes_ok (snd tv) = true
+  /\ (fst tv = 1 \/ fst tv = 3 \/ fst tv = 4
+      \/ (fst tv = 2 /\ (lenN (snd tv) = 4 \/ lenN (snd tv) = 16))
+      \/ (fst tv = 5 /\ lenN (snd tv) = 0)).
+
+Definition vals_ok (vals : list (N * list N)) : Prop := Forall val_ok vals.
 
 Lemma to_be2_pair n : n <= 65535 -> to_be 2 n = [n / 256; n mod 256].
 Proof.
   intros H. change (to_be 2 n) with [(n / 256) mod 256; n mod 256].
   rewrite N.mod_small by lia. reflexivity.
+Qed.
+
+Lemma ext_length_ok t v :
+  val_ok (t, v) -> ext_is_string t && (lenN v =? 0) = false -> lenN v <= 65535 ->
+  spec_ext_length_ok t (lenN v) = true /\ t <> 0.
+Proof.
+  unfold val_ok, ext_is_string, spec_ext_length_ok. cbn [fst snd]. intros [_ H] E L.
+  destruct H as [->|[->|[->|[[-> H]|[-> H]]]]].
+  - lit 1 1. cbn [orb andb] in *. split; lia.
+  - lit 3 1. lit 3 3. cbn [orb andb] in *. split; lia.
+  - lit 4 1. lit 4 3. lit 4 4. cbn [orb andb] in *. split; lia.
+  - lit 2 1. lit 2 3. lit 2 4. lit 2 2. cbn [orb]. split; lia.
+  - lit 5 1. lit 5 3. lit 5 4. lit 5 2. lit 5 5. cbn [orb]. split; lia.
 Qed.
 
 Lemma ext_values_wf vals : forall b fuel,
@@ -105,21 +150,37 @@ Lemma ext_values_wf vals : forall b fuel,
 Proof.
   induction vals as [|[t v] rest IH]; intros b fuel Hok Hb Hf; cbn [ext_values] in Hb.
   - inversion Hb; subst. destruct fuel; [cbn in Hf; lia|]. reflexivity.
-  - destruct (65535 <? lenN v) eqn:E; [discriminate|].
+  - sconsts. change (1 =? 1) with true in Hb. cbn [andb] in Hb.
+    destruct (ext_is_string t && (lenN v =? 0)) eqn:Es; [discriminate|].
+    destruct (65535 <? lenN v) eqn:E; [discriminate|].
     destruct (ext_values rest) as [r|] eqn:Er; [|discriminate].
     inversion Hb; subst. clear Hb.
-    inversion Hok as [|? ? [Ht Hv] Hok']; subst. cbn [fst snd] in *.
+    inversion Hok as [|? ? Hv Hok']; subst.
+    destruct (ext_length_ok t v Hv Es) as [Hl Ht]; [lia|].
     destruct fuel as [|f]; [cbn in Hf; lia|].
     change (to_be 2 (lenN v)) with [(lenN v / 256) mod 256; lenN v mod 256].
     rewrite (N.mod_small (lenN v / 256) 256) by lia. cbn [Datatypes.app spec_ext_values].
     replace (t =? 0) with false by lia.
     replace (lenN v / 256 * 256 + lenN v mod 256) with (lenN v) by lia.
+    rewrite Hl. cbn [negb].
     rewrite <- app_assoc.
     replace (lenN (v ++ r ++ [0; 0; 0]) <? lenN v) with false by (rewrite lenN_app; lia).
     rewrite takeN_exact, dropN_exact.
     rewrite (IH r f Hok' eq_refl).
     + reflexivity.
     + cbn [Datatypes.app length] in Hf. rewrite !app_length in Hf. cbn [length] in Hf. lia.
+Qed.
+
+(* lib/README.md: DOMAIN, USER_AGENT, PROXY_AUTH have length (0..MAX]: with an empty one no message is written *)
+Lemma ext_values_empty_string vals t v :
+  In (t, v) vals -> ext_is_string t = true -> lenN v = 0 -> ext_values vals = None.
+Proof.
+  induction vals as [|[t' v'] rest IH]; intros Hin Ht Hv; [destruct Hin|].
+  cbn [ext_values]. sconsts. change (1 =? 1) with true. cbn [andb].
+  destruct Hin as [E|Hin].
+  - injection E as -> ->. rewrite Ht. replace (lenN v =? 0) with true by lia. reflexivity.
+  - destruct (ext_is_string t' && (lenN v' =? 0)); [reflexivity|].
+    destruct (65535 <? lenN v'); [reflexivity|]. rewrite (IH Hin Ht Hv). reflexivity.
 Qed.
 
 Lemma ext_wf vals msg :
@@ -131,6 +192,43 @@ Proof.
   cbn [Datatypes.app spec_ext]. change (to_be 2 0) with [0; 0].
   change ([0] ++ [0; 0]) with [0; 0; 0].
   apply ext_values_wf; [exact Hok|exact E|]. rewrite app_length. cbn [length]. lia.
+Qed.
+
+(* socks5_forwarder::make_extended_auth *)
+Lemma ext_auth_empty_user_agent_is_none domain addr src :
+  make_extended_auth domain addr (Some []) src = make_extended_auth domain addr None src.
+Proof. reflexivity. Qed.
+
+Lemma make_extended_auth_ok domain addr agent src :
+  bytes_ok domain = true -> bytes_ok addr = true -> (lenN addr = 4 \/ lenN addr = 16) ->
+  match agent with Some ua => bytes_ok ua = true | None => True end ->
+  match src with SrcBasic t => bytes_ok t = true | SrcSni => True end ->
+  vals_ok (make_extended_auth domain addr agent src).
+Proof.
+  intros Hd Ha Hl Hu Hs. unfold make_extended_auth, vals_ok.
+  assert (H1 : val_ok (1, domain)) by (split; [exact Hd|left; reflexivity]).
+  assert (H2 : val_ok (2, addr)) by (split; [exact Ha|right; right; right; left; split; [reflexivity|exact Hl]]).
+  assert (H3 : val_ok (match src with SrcSni => (5, []) | SrcBasic t => (4, t) end)).
+  { destruct src as [|t]; split; cbn [fst snd]; try reflexivity; try exact Hs.
+    - right; right; right; right. split; reflexivity.
+    - right; right; left; reflexivity. }
+  destruct agent as [ua|]; [destruct ua as [|c ua]|]; cbn [is_nil Datatypes.app].
+  - repeat (apply Forall_cons; [assumption|]). apply Forall_nil.
+  - apply Forall_cons; [exact H1|]. apply Forall_cons; [exact H2|].
+    apply Forall_cons; [split; [exact Hu|right; left; reflexivity]|].
+    apply Forall_cons; [exact H3|apply Forall_nil].
+  - repeat (apply Forall_cons; [assumption|]). apply Forall_nil.
+Qed.
+
+(* the message made of a request's values is well-formed whatever the User-Agent field was, an empty one included *)
+Lemma ext_auth_of_a_request_wf domain addr agent src msg :
+  bytes_ok domain = true -> bytes_ok addr = true -> (lenN addr = 4 \/ lenN addr = 16) ->
+  match agent with Some ua => bytes_ok ua = true | None => True end ->
+  match src with SrcBasic t => bytes_ok t = true | SrcSni => True end ->
+  auth_message (AExt (make_extended_auth domain addr agent src)) = Some msg ->
+  spec_ext msg = Some (make_extended_auth domain addr agent src).
+Proof.
+  intros Hd Ha Hl Hu Hs. apply ext_wf. apply make_extended_auth_ok; assumption.
 Qed.
 
 (* ---------- the dialogue ---------- *)
@@ -151,8 +249,10 @@ Definition em_wellformed (a : s_auth) (d : s_dest) (port : N) (e : emitted) : Pr
     | AExt vals => spec_ext m = Some vals
     | ANone => False
     end
-  | EmReq m => exists atyp addr, spec_request m = Some (1, atyp, addr, port)
-                                 /\ addr = match d with DIp b => b | DDomain n => n end
+  | EmReq m => spec_request m =
+               Some (1,
+                     match d with DIp b => if lenN b =? 4 then 1 else 4 | DDomain _ => 3 end,
+                     match d with DIp b => b | DDomain n => n end, port)
   end.
 
 Lemma after_auth_wf a d port s em :
@@ -163,7 +263,7 @@ Proof.
   intros Hd Hp Hem. unfold after_auth.
   destruct (request_message 1 d port) as [req|] eqn:E; cbn [fst]; [|exact Hem].
   apply Forall_app. split; [exact Hem|]. constructor; [|constructor].
-  cbn [em_wellformed]. eexists _, _. split; [apply (request_wf 1 d port req Hd Hp E)|reflexivity].
+  cbn [em_wellformed]. apply (request_wf 1 d port req Hd Hp E).
 Qed.
 
 Lemma auth_message_wf a msg :
